@@ -157,6 +157,11 @@ func genC06(t *rapid.T) C06Case {
 				for i := range q {
 					q[i] = h.Base - 1 - uint64(rapid.IntRange(0, 2).Draw(t, "advq"))
 				}
+				if rapid.Bool().Draw(t, "advqtop") {
+					// a quotient of B+1 words whose top word is tiny: the dividend then has exactly n+B words, the
+					// last block computes all of it, and its estimate overshoots the most
+					q[0] = uint64(rapid.IntRange(1, 3).Draw(t, "advq0"))
+				}
 				ub = new(big.Int).Mul(wordsBig(q), vb)
 				ub.Add(ub, big.NewInt(int64(rapid.IntRange(0, 1).Draw(t, "advr"))))
 			}
@@ -377,3 +382,73 @@ var propC06 = &h.Prop[C06Case]{ID: "C06", Rule: ruleC06, Gen: genC06, Check: che
 
 func TestC06(t *testing.T)       { propC06.Search(t) }
 func TestC06Replay(t *testing.T) { propC06.Replay(t) }
+
+// fuzzWords decodes a byte string into n words (most significant first) with the pattern alphabet of the generators.
+func fuzzWords(data []byte, n int) ([]uint64, []byte) {
+	w := make([]uint64, n)
+	for i := 0; i < n; i++ {
+		if len(data) == 0 {
+			w[i] = h.Base - 1
+			continue
+		}
+		s := data[0]
+		data = data[1:]
+		switch s % 8 {
+		case 0:
+			w[i] = 0
+		case 1:
+			w[i] = h.Base - 1
+		case 2:
+			w[i] = h.Base / 2
+		case 3:
+			w[i] = h.Base/2 - 1
+		case 4:
+			w[i] = 1
+		case 5:
+			var v uint64
+			for j := 0; j < 8 && len(data) > 0; j++ {
+				v = v<<8 | uint64(data[0])
+				data = data[1:]
+			}
+			w[i] = v % h.Base
+		case 6:
+			p := uint64(1)
+			for j := 0; j < int(s>>3)%19; j++ {
+				p *= 10
+			}
+			w[i] = p
+		default:
+			w[i] = h.Base - 1 - uint64(s>>3)
+		}
+	}
+	return w, data
+}
+
+// FuzzDiv is the native coverage-guided leg of C06 (thorough tier): division operands decoded from bytes
+// (divisor and quotient lengths, then word patterns), checked by the same oracle as the generated cases.
+func FuzzDiv(f *testing.F) {
+	f.Add(uint16(3), uint16(2), []byte{1, 2, 3, 4, 5, 6, 7, 8, 9})
+	f.Add(uint16(218), uint16(110), []byte{2, 0, 0, 0, 1, 1, 1, 1})
+	f.Add(uint16(100), uint16(50), []byte{2, 0, 0, 0, 0, 0, 0, 0, 0, 0, 0, 0, 0, 0, 0, 0, 0, 0, 0, 0, 0, 0, 0, 0, 0, 0, 0, 0, 0, 0, 0, 0, 0, 0, 0, 0, 0, 0, 0, 0, 0, 0, 0, 0, 0, 0, 0, 0, 0, 0, 1})
+	f.Add(uint16(150), uint16(76), []byte{3, 1, 1, 1})
+	f.Fuzz(func(t *testing.T, nv, nq uint16, data []byte) {
+		n := 1 + int(nv)%400
+		k := 1 + int(nq)%400
+		v, rest := fuzzWords(data, n)
+		if v[0] == 0 {
+			v[0] = h.Base / 2
+		}
+		q, rest := fuzzWords(rest, k)
+		if q[0] == 0 {
+			q[0] = 1
+		}
+		r, _ := fuzzWords(rest, 1)
+		vb := wordsBig(v)
+		ub := new(big.Int).Mul(wordsBig(q), vb)
+		ub.Add(ub, new(big.Int).Mod(new(big.Int).SetUint64(r[0]), vb))
+		c := C06Case{Kind: "div", X: bigToWordString(ub), Y: wordsToDigitStringMSF(v), Thr: [3]int{30, 10, 50}}
+		if fail := propC06.SafeCheck(c, &h.Obs{}); fail != nil {
+			h.FuzzFail(t, "C06", fail, c)
+		}
+	})
+}
